@@ -399,6 +399,9 @@ switchpos:
 			}
 			return bval / v, nil
 		case token.Rem:
+			if v == 0 {
+				return nil, ErrZeroDivision
+			}
 			return bval % v, nil
 		case token.And:
 			return bval & v, nil
@@ -436,6 +439,9 @@ switchpos:
 			}
 			return bval / v, nil
 		case token.Rem:
+			if v == 0 {
+				return nil, ErrZeroDivision
+			}
 			return bval % v, nil
 		case token.And:
 			return bval & v, nil
